@@ -423,6 +423,63 @@ def nested_programs(quick=False):
     return out
 
 
+# every place a NAME is looked up in some namespace, with a name that is not there -- for namespaces of size 0, 1 and several
+# (diagnostics carry a lazily computed "did you mean" suggestion over the namespace: it must render for every size)
+def unknown_name_programs():
+    out = []
+    ev = {0: "event E:\n    pass\n", 1: "event E:\n    a: uint256\n", 3: "event E:\n    a: uint256\n    bb: uint256\n    ccc: address\n"}
+    for k, d in ev.items():
+        out.append((f"event-field:{k}", d + "\n@external\ndef f():\n    log E(zz=1)\n", None))
+    st = {1: "struct S:\n    a: uint256\n", 3: "struct S:\n    a: uint256\n    bb: uint256\n    ccc: address\n"}
+    for k, d in st.items():
+        out.append((f"struct-ctor-field:{k}", d + "\n@external\ndef f() -> uint256:\n    s: S = S(zz=1)\n    return 1\n", None))
+        out.append((f"struct-member:{k}", d + "\nx: S\n\n@external\ndef f() -> uint256:\n    return self.x.zz\n", None))
+    fl = {1: "flag F:\n    A\n", 3: "flag F:\n    A\n    BB\n    CCC\n"}
+    for k, d in fl.items():
+        out.append((f"flag-member:{k}", d + "\n@external\ndef f() -> F:\n    return F.ZZ\n", None))
+    itf = {0: "interface I:\n    pass\n", 1: "interface I:\n    def a() -> uint256: view\n",
+           3: "interface I:\n    def a() -> uint256: view\n    def bb(): nonpayable\n    def ccc(x: uint256): payable\n"}
+    for k, d in itf.items():
+        out.append((f"interface-function:{k}", d + "\n@external\ndef f(t: address) -> uint256:\n    return staticcall I(t).zz()\n", None))
+    sv = {0: "", 1: "a: uint256\n", 3: "a: uint256\nbb: uint256\nccc: address\n"}
+    for k, d in sv.items():
+        out.append((f"self-variable:{k}", d + "\n@external\ndef f() -> uint256:\n    return self.zz\n", None))
+        out.append((f"self-function:{k}", d + "\n@external\ndef f() -> uint256:\n    return self.zz()\n", None))
+    libs = {0: "K: constant(uint256) = 1\n", 1: "@internal\ndef a() -> uint256:\n    return 1\n",
+            3: "@internal\ndef a() -> uint256:\n    return 1\n\n@internal\ndef bb() -> uint256:\n    return 2\n\n@internal\ndef ccc() -> uint256:\n    return 3\n"}
+    for k, d in libs.items():
+        out.append((f"module-function:{k}", "import lib\n\n@external\ndef f() -> uint256:\n    return lib.zz()\n", {"lib.vy": d}))
+        out.append((f"module-export:{k}", "import lib\nexports: lib.zz\n\n@external\ndef f() -> uint256:\n    return 1\n", {"lib.vy": d}))
+        out.append((f"module-override:{k}", "import lib\ninitializes: lib\n\n@override(lib)\n@internal\ndef zz():\n    pass\n\n@external\ndef f() -> uint256:\n    return 1\n",
+                    {"lib.vy": d}))
+        out.append((f"module-constant:{k}", "import lib\n\n@external\ndef f() -> uint256:\n    return lib.ZZ\n", {"lib.vy": d}))
+    out.append(("local-variable:0", "@external\ndef f() -> uint256:\n    return zz\n", None))
+    out.append(("local-variable:2", "@external\ndef f(a: uint256, bb: uint256) -> uint256:\n    return zz\n", None))
+    out.append(("type-name", "@external\ndef f(a: uint257) -> uint256:\n    return 1\n", None))
+    out.append(("builtin-name", "@external\ndef f(a: uint256) -> uint256:\n    return isqrtt(a)\n", None))
+    out.append(("kwarg-name", "@external\ndef f(a: address) -> Bytes[32]:\n    return raw_call(a, b\"\", max_outsiz=32)\n", None))
+    out.append(("decorator-name", "@externl\ndef f() -> uint256:\n    return 1\n", None))
+    out.append(("msg-attribute", "@external\ndef f() -> uint256:\n    return msg.valu\n", None))
+    out.append(("loop-variable-attr", "@external\ndef f(x: uint256[2]) -> uint256:\n    for i: uint256 in x:\n        return i.zz\n    return 0\n", None))
+    return out
+
+
+def part_unknown_names(ctx, tmp):
+    items = []
+    for nm, src, files in unknown_name_programs():
+        if files is None:
+            items.append({"id": "unk:" + nm, "src": src, "how": "unknown-name", "base": nm})
+        else:
+            items.append({"id": "unk:" + nm, "files": dict(files, **{"main.vy": src}), "target": "main.vy", "how": "unknown-name", "base": nm})
+    strip = lambda it: {k: v for k, v in it.items() if k in ("id", "src", "files", "target")}  # noqa
+    rows = run_shard(tmp, 70, [strip(it) for it in items], 5, [[False, "gas"], [True, "gas"]])
+    accepted = [r["id"] for r in rows if r["front"]["outcome"] == "output"]
+    if accepted:
+        ctx.violation("correspondence-broken", "a program that uses a name that is declared nowhere is accepted (the unknown-name family is "
+                      "no longer a family of invalid programs)", {"accepted": accepted})
+    return classify_rows(ctx, rows, items, "unk")
+
+
 def part_env_matrix(ctx, tmp):
     """environment variables / builtins / unbounded types x every EVM target x both pipelines (systematic, fixed list)"""
     items = []
@@ -925,6 +982,8 @@ def run(ctx):
         stats, n_items = part_outcomes(ctx, tmp)
         vstats, n_valid = part_valid(ctx, tmp)
         estats, n_env = part_env_matrix(ctx, tmp)
+        ustats, n_unk = part_unknown_names(ctx, tmp)
+        n_env += n_unk
         mstats, n_matrix, n_matrix_exec = part_builtin_matrix(ctx, tmp)
         cstats, n_cf, n_cf_exec = part_cf_exec(ctx, tmp)
         fstats, n_fixed = part_fixed(ctx, tmp)
